@@ -108,10 +108,11 @@ type vmVMRoles struct {
 type vmDispNode struct {
 	fn     *vmFn
 	obj    *types.Func
-	sw     *ast.SwitchStmt
-	subj   types.Object // the parameter holding the instruction (or its opcode)
-	isOp   bool         // subj is the opcode itself
-	subjIx int          // index of subj among the parameters
+	sw     *ast.SwitchStmt   // the first opcode switch of the function
+	sws    []*ast.SwitchStmt // all its statement-level opcode switches over the same subject, in order
+	subj   types.Object      // the parameter holding the instruction (or its opcode)
+	isOp   bool              // subj is the opcode itself
+	subjIx int               // index of subj among the parameters
 	edges  map[*ast.CaseClause]*vmDispNode
 	called bool
 }
@@ -243,11 +244,18 @@ func vmRoles(c *Ctx) *vmVMRoles {
 			if !types.Identical(fn.info.TypeOf(sw.Tag), opT.Type()) {
 				continue
 			}
-			if r.nodes[obj] != nil {
-				fatalf("anchor ambiguous: %s has two statement-level switches over compiler.Opcode", fn.name)
+			subj, isOp := vmOpcodeSubject(fn, sw.Tag, 0)
+			if n := r.nodes[obj]; n != nil {
+				// a second switch over the opcode of the same instruction: the dispatch continues there
+				// for the opcodes the earlier switches did not return for
+				if subj == nil || subj != n.subj || isOp != n.isOp {
+					fatalf("anchor ambiguous: %s has two statement-level switches over compiler.Opcode that examine different values", fn.name)
+				}
+				n.sws = append(n.sws, sw)
+				continue
 			}
-			n := &vmDispNode{fn: fn, obj: obj, sw: sw, edges: map[*ast.CaseClause]*vmDispNode{}}
-			n.subj, n.isOp = vmOpcodeSubject(fn, sw.Tag, 0)
+			n := &vmDispNode{fn: fn, obj: obj, sw: sw, sws: []*ast.SwitchStmt{sw}, edges: map[*ast.CaseClause]*vmDispNode{}}
+			n.subj, n.isOp = subj, isOp
 			for i, p := range vmParamObjs(fn) {
 				if p != nil && p == n.subj {
 					n.subjIx = i
@@ -287,7 +295,7 @@ func vmRoles(c *Ctx) *vmVMRoles {
 		return false
 	}
 	for _, d := range order {
-		for _, cl := range d.sw.Body.List {
+		for _, cl := range d.clauses() {
 			cc := cl.(*ast.CaseClause)
 			for _, s := range cc.Body {
 				ast.Inspect(s, func(m ast.Node) bool {
@@ -322,9 +330,9 @@ func vmRoles(c *Ctx) *vmVMRoles {
 	}
 	r.dispatch, r.rootSw = root.fn, root.sw
 	// flattened switch
-	listed := func(n *vmDispNode) map[*types.Const]bool {
+	listed := func(n *vmDispNode, sw *ast.SwitchStmt) map[*types.Const]bool {
 		m := map[*types.Const]bool{}
-		for _, cl := range n.sw.Body.List {
+		for _, cl := range sw.Body.List {
 			for _, e := range cl.(*ast.CaseClause).List {
 				if k := ConstOf(n.fn.info, e); k != nil {
 					m[k] = true
@@ -339,35 +347,48 @@ func vmRoles(c *Ctx) *vmVMRoles {
 			fatalf("anchor unresolved: dispatch tree deeper than 6 functions")
 		}
 		var out []ast.Stmt
-		mine := listed(n)
-		for _, cl := range n.sw.Body.List {
-			cc := cl.(*ast.CaseClause)
-			sub := map[*types.Const]bool{}
-			if cc.List == nil {
-				if !withDefault && n.edges[cc] == nil {
+		for si, sw := range n.sws {
+			last := si == len(n.sws)-1
+			mine := listed(n, sw)
+			for _, cl := range sw.Body.List {
+				cc := cl.(*ast.CaseClause)
+				sub := map[*types.Const]bool{}
+				if cc.List == nil {
+					if !(withDefault && last) && n.edges[cc] == nil {
+						continue
+					}
+					for _, k := range r.opEnum.Consts {
+						if !mine[k] && (allowed == nil || allowed[k]) {
+							sub[k] = true
+						}
+					}
+				} else {
+					for _, e := range cc.List {
+						if k := ConstOf(n.fn.info, e); k != nil && (allowed == nil || allowed[k]) {
+							sub[k] = true
+						}
+					}
+					if len(sub) == 0 {
+						continue
+					}
+				}
+				if e := n.edges[cc]; e != nil {
+					out = append(out, flatten(e, sub, cc.List == nil && withDefault && last, depth+1)...)
 					continue
 				}
+				r.clauseFn[cc] = n.fn
+				out = append(out, cc)
+			}
+			if !last {
+				// the opcodes an earlier switch lists are handled there: a later switch only sees the rest
+				rest := map[*types.Const]bool{}
 				for _, k := range r.opEnum.Consts {
 					if !mine[k] && (allowed == nil || allowed[k]) {
-						sub[k] = true
+						rest[k] = true
 					}
 				}
-			} else {
-				for _, e := range cc.List {
-					if k := ConstOf(n.fn.info, e); k != nil && (allowed == nil || allowed[k]) {
-						sub[k] = true
-					}
-				}
-				if len(sub) == 0 {
-					continue
-				}
+				allowed = rest
 			}
-			if e := n.edges[cc]; e != nil {
-				out = append(out, flatten(e, sub, cc.List == nil && withDefault, depth+1)...)
-				continue
-			}
-			r.clauseFn[cc] = n.fn
-			out = append(out, cc)
 		}
 		return out
 	}
@@ -376,8 +397,12 @@ func vmRoles(c *Ctx) *vmVMRoles {
 	vmDispRootPos = root.sw.Pos()
 	vmDispEnum = r.opEnum.Consts
 	for _, n := range order {
+		for i, sw := range n.sws {
+			if n != root || i > 0 {
+				vmContSwitchPos[sw.Pos()] = true
+			}
+		}
 		if n != root {
-			vmContSwitchPos[n.sw.Pos()] = true
 			r.handlers[n.obj] = n.fn
 		}
 	}
@@ -414,7 +439,7 @@ func vmRoles(c *Ctx) *vmVMRoles {
 	}
 	vmDispatchInline[root.fn.fd] = want
 	for _, n := range order {
-		for _, cl := range n.sw.Body.List {
+		for _, cl := range n.clauses() {
 			for _, s := range cl.(*ast.CaseClause).Body {
 				ast.Inspect(s, func(m ast.Node) bool {
 					if call, ok := m.(*ast.CallExpr); ok {
@@ -445,6 +470,15 @@ func vmRoles(c *Ctx) *vmVMRoles {
 	r.run = vmMustFn(c, "homescript/runtime", "Core", "Run")
 	vmRolesCache[c] = r
 	return r
+}
+
+// clauses: the clauses of all opcode switches of the function, in order.
+func (n *vmDispNode) clauses() []ast.Stmt {
+	var out []ast.Stmt
+	for _, sw := range n.sws {
+		out = append(out, sw.Body.List...)
+	}
+	return out
 }
 
 func vmOrigin(f *types.Func) *types.Func {
